@@ -2419,8 +2419,14 @@ class State:
             cards = Card.clean(cards)
             dealable_cards = tuple(self.get_dealable_cards(len(cards)))
 
-            for card in cards:
-                if card not in dealable_cards and card:
+            for i, card in enumerate(cards):
+                if (
+                        card
+                        and (
+                            card not in dealable_cards
+                            or card in cards[:i]
+                        )
+                ):
                     warn(
                         (
                             f'A card being dealt {repr(card)} is not'
